@@ -253,6 +253,15 @@ pub fn replay(kind: &str, case: &Value) -> Result<(), String> {
             let b = hex::decode(case["hex"].as_str().unwrap_or("")).map_err(|e| e.to_string())?;
             decide(case["mode"].as_str().unwrap_or(""), &b, case["branch"].as_u64().unwrap_or(0) as u32).map(|_| ())
         }
+        "tx-reader" | "hdr-reader" => {
+            let b = hex::decode(case["hex"].as_str().unwrap_or("")).map_err(|e| e.to_string())?;
+            let a = real::Answers::parse(case["answers"].as_str().unwrap_or("")).ok_or("bad reader answers")?;
+            if kind == "tx-reader" {
+                oracle::check_reader(&b, case["branch"].as_u64().unwrap_or(0) as u32, a).map(|_| ())
+            } else {
+                header::check_header_reader(&b, a).map(|_| ())
+            }
+        }
         "compact" => header::check_compact(case["n"].as_str().and_then(|s| s.parse().ok()).unwrap_or(0), case["form"].as_u64().unwrap_or(1) as usize).map(|_| ()),
         "optional" => header::check_optional(case["tag"].as_u64().unwrap_or(0) as u8).map(|_| ()),
         _ => Err(format!("unknown kind {kind}")),
@@ -295,6 +304,95 @@ fn sweep(run: &Run, kind: &str, mode: &str, base_id: &str, ext_branch: u32, base
     for (o, n) in outcomes {
         run.outcome_n(&o, n);
     }
+}
+
+/// Deviation levels of the reader-answer dimension, for the evidence.
+#[derive(Default)]
+struct ReaderCounts {
+    split: std::sync::atomic::AtomicU64,
+    interrupt: std::sync::atomic::AtomicU64,
+    chunk: [std::sync::atomic::AtomicU64; 4],
+}
+
+const CHUNKS: [usize; 4] = [1, 2, 3, 7];
+
+/// Evaluate reader-answer cases: `(description, bytes (None = the base itself), answers)`.
+/// The slice parse of the base is computed once and shared by all cases on the base itself
+/// (`check_reader` recomputes it when a case is replayed).
+fn sweep_reader(run: &Run, hdr: bool, base_id: &str, ext_branch: u32, base: &[u8], cases: Vec<(String, Option<Vec<u8>>, real::Answers)>, counts: &ReaderCounts) {
+    use std::sync::atomic::Ordering::Relaxed;
+    let kind = if hdr { "hdr-reader" } else { "tx-reader" };
+    let shared = if hdr { None } else { oracle::slice_parse(base, ext_branch).ok() };
+    let results: Vec<Result<String, String>> = cases
+        .par_iter()
+        .map(|(_, bytes, a)| {
+            let b: &[u8] = bytes.as_deref().unwrap_or(base);
+            if hdr {
+                header::check_header_reader(b, *a)
+            } else {
+                match (&shared, bytes) {
+                    (Some(sp), None) => oracle::check_reader_with(b, ext_branch, *a, sp),
+                    _ => oracle::check_reader(b, ext_branch, *a),
+                }
+            }
+        })
+        .collect();
+    let mut outcomes: BTreeMap<String, u64> = BTreeMap::new();
+    for ((desc, bytes, a), r) in cases.iter().zip(results) {
+        match a {
+            real::Answers::SplitAt(_) => counts.split.fetch_add(1, Relaxed),
+            real::Answers::InterruptAt(_) => counts.interrupt.fetch_add(1, Relaxed),
+            real::Answers::Chunk(k) => counts.chunk[CHUNKS.iter().position(|c| c == k).unwrap_or(0)].fetch_add(1, Relaxed),
+            real::Answers::Full => 0,
+        };
+        match r {
+            Ok(o) => *outcomes.entry(o).or_insert(0) += 1,
+            Err(m) => {
+                let b: &[u8] = bytes.as_deref().unwrap_or(base);
+                run.fail(kind, format!("{base_id}:{desc}@{}", a.name()), m, json!({"hex": hex::encode(b), "branch": ext_branch, "answers": a.name()}));
+            }
+        }
+    }
+    // distinct by construction: (base, bytes variant, answers) are enumerated without repetition
+    run.eval_distinct(cases.len() as u64);
+    for (o, n) in outcomes {
+        run.outcome_n(&o, n);
+    }
+}
+
+/// Reader cases on one complete encoding: every call short (k in CHUNKS), the same on the stream
+/// truncated by one byte (must stay an error), and one short read / one interruption at each of
+/// `positions`.
+fn reader_cases(enc: &[u8], positions: &[usize], interrupts: bool) -> Vec<(String, Option<Vec<u8>>, real::Answers)> {
+    let mut v = Vec::new();
+    for k in CHUNKS {
+        v.push(("whole".to_string(), None, real::Answers::Chunk(k)));
+        if !enc.is_empty() {
+            v.push((format!("trunc[{}]", enc.len() - 1), Some(enc[..enc.len() - 1].to_vec()), real::Answers::Chunk(k)));
+        }
+    }
+    for &i in positions {
+        v.push(("whole".to_string(), None, real::Answers::SplitAt(i)));
+        if interrupts {
+            v.push(("whole".to_string(), None, real::Answers::InterruptAt(i)));
+        }
+    }
+    v
+}
+
+/// Three positions inside every field that is read with one call: after its first byte, in the
+/// middle, before its last byte (plus the field boundaries themselves).
+fn field_interior_positions(spans: &[Span], len: usize) -> Vec<usize> {
+    let mut v = vec![0, len];
+    for sp in spans {
+        v.push(sp.off);
+        if sp.len > 1 {
+            v.extend([sp.off + 1, sp.off + sp.len / 2, sp.off + sp.len - 1]);
+        }
+    }
+    v.sort();
+    v.dedup();
+    v
 }
 
 fn vectors() -> Vec<Base> {
@@ -375,13 +473,17 @@ pub fn run(args: &Args) -> i32 {
          MAX_MONEY lattice, script lengths and vin/vout counts at 252/253, flag bytes, distinct v4 anchors, free proof lengths); arbitrary bytes: \
          truncation lengths and byte rewrites {^1,^0x80,=0,=0xff} at every position (thorough; quick: every position of structured fields, and the \
          first/last two bytes and ZIP 244 split points of opaque fields), extension by 1/32 bytes, and every count/amount/flags/branch/header/group-id \
-         field x its boundary lattice (all four CompactSize forms, canonical or not) applied to base encodings and to the published vectors; block \
+         field x its boundary lattice (all four CompactSize forms, canonical or not) applied to base encodings and to the published vectors; reader answers \
+         (deviation-bounded): every lattice encoding, vector and header delivered with every call short (at most 1/2/3/7 bytes), also truncated by one \
+         byte; exactly one short read (b[..i].chain(b[i..])) at three positions inside every field of every field-lattice base and at every enumerated \
+         byte position of the byte-level bases, vectors and header bases, where also one ErrorKind::Interrupted is injected; block \
          headers: 7 fields on boundary values x solution lengths {0,1,252,253,1344}; direct CompactSize/Vector/Optional lattice. A case is distinct \
          by (input bytes, branch, oracle); non-trivial because it differs from every other input by at least one byte",
     );
     run.assume("the pool of valid group/field element encodings comes from the crates' proptest strategies under proptest's deterministic runner (value source only)");
     run.assume("'never reads past what it reports as consumed': the reader position after read() must equal the length of the value's own serialisation, and trailing sentinel bytes must stay unread");
     run.assume("accepted arbitrary bytes must equal the canonical serialisation of the parsed value (implied by equal txid for v1-v4; checked for v5/v6 as the canonical-codec reading of the title)");
+    run.assume("reader answers: the value, re-serialisation, txid, auth commitment (header: hash) obtained through a scripted reader must equal those of the contiguous-slice parse of the same bytes; rejected streams must stay rejected");
     run.assume("registry zcash_encoding 0.4 (used by the transaction parser) is exercised only through Transaction::read; the direct lattice runs on components/zcash_encoding");
     let p = pool::pool();
     run.require(p.min_len() >= pool::POOL_MIN - 2, "value pool too small");
@@ -395,6 +497,7 @@ pub fn run(args: &Args) -> i32 {
         t0 = t;
     };
 
+    let rc = ReaderCounts::default();
     // ---- well-formed side -------------------------------------------------------------------
     let pairs = pairs();
     let wf_cases: u64 = pairs
@@ -404,6 +507,12 @@ pub fn run(args: &Args) -> i32 {
             shapes.extend(scalar_shapes(*ver, *branch, thorough));
             let cases: Vec<Mutant> = shapes.iter().map(|sh| (sh.id(), Mut::Whole(ref_write(&make_spec(*ver, *branch, sh)).buf))).collect();
             let n = cases.len() as u64;
+            // reader answers: every call short (k = 1, 2, 3, 7) on every lattice encoding and on
+            // the stream truncated by one byte
+            for (id, m) in &cases {
+                let enc = m.apply(&[]);
+                sweep_reader(&run, false, &format!("{}@{}/{id}", ver.name(), branch_name(*branch)), *branch, &enc, reader_cases(&enc, &[], false), &rc);
+            }
             sweep(&run, "tx", "wf", &format!("wf:{}@{}", ver.name(), branch_name(*branch)), *branch, &[], cases);
             n
         })
@@ -441,6 +550,16 @@ pub fn run(args: &Args) -> i32 {
         if run.elapsed() > cap {
             skipped.fetch_add(1, std::sync::atomic::Ordering::Relaxed);
             return;
+        }
+        // reader answers: exactly one short read at positions inside every field
+        {
+            let quick_lattice = {
+                let c: Vec<usize> = b.id.split('/').nth(1).unwrap_or("").split(',').filter_map(|t| t.trim_start_matches(|ch: char| ch.is_alphabetic()).parse().ok()).collect();
+                c.iter().all(|x| *x <= 1) || c.iter().all(|x| *x == 0 || *x == 2)
+            };
+            let pos = if thorough && quick_lattice { byte_positions(&b.spans, b.enc.len(), false) } else { field_interior_positions(&b.spans, b.enc.len()) };
+            let cases = pos.iter().map(|i| ("whole".to_string(), None, real::Answers::SplitAt(*i))).collect();
+            sweep_reader(&run, false, &b.id, b.ext_branch, &b.enc, cases, &rc);
         }
         let all_flags = thorough || b.id.contains("in1,out1,sp1,so1,or1,ir1");
         sweep(&run, "tx", "bytes", &b.id, b.ext_branch, &b.enc, field_mutants(&b.enc, &b.spans, all_flags));
@@ -499,6 +618,20 @@ pub fn run(args: &Args) -> i32 {
         // v5 / tx_read_write vectors; otherwise the structured positions (see `byte_positions`)
         let all = thorough && !(b.id.starts_with("vec:zip143") || b.id.starts_with("vec:zip243"));
         let positions = byte_positions(&b.spans, b.enc.len(), all);
+        {
+            let mut pos = positions.clone();
+            pos.extend([0, b.enc.len()]);
+            pos.sort();
+            pos.dedup();
+            let mut rcases = reader_cases(&b.enc, &pos, true);
+            // truncated streams under "every call one byte": still errors, at every enumerated length
+            for &t in &positions {
+                if t < b.enc.len() {
+                    rcases.push((format!("trunc[{t}]"), Some(b.enc[..t].to_vec()), real::Answers::Chunk(1)));
+                }
+            }
+            sweep_reader(&run, false, &b.id, b.ext_branch, &b.enc, rcases, &rc);
+        }
         let mut cases = length_mutants(&b.enc, &positions);
         cases.extend(byte_mutants(&b.enc, &positions));
         sweep(&run, "tx", "bytes", &b.id, b.ext_branch, &b.enc, cases);
@@ -513,6 +646,11 @@ pub fn run(args: &Args) -> i32 {
     let hdrs = header_lattice(&[0, 1, 252, 253, 1344]);
     run.section("header_lattice", json!(hdrs.len()));
     let cases: Vec<Mutant> = hdrs.iter().enumerate().map(|(i, h)| (format!("hdr[{i}]"), Mut::Whole(header::ref_write_header(h)))).collect();
+    {
+        let rcases: Vec<(String, Option<Vec<u8>>, real::Answers)> =
+            cases.iter().flat_map(|(id, m)| CHUNKS.iter().map(move |k| (id.clone(), Some(m.apply(&[])), real::Answers::Chunk(*k)))).collect();
+        sweep_reader(&run, true, "hdr", 0, &[], rcases, &rc);
+    }
     sweep(&run, "hdr", "hdr-wf", "hdr", 0, &[], cases);
     for sl in [0usize, 1, 252, 253, 1344] {
         let hb = header::ref_write_header(&header::Hdr { version: 4, prev: pool::fill32("hdr-prev", 0), merkle: pool::fill32("hdr-merkle", 0), sapling_root: pool::fill32("hdr-root", 0), time: 1_600_000_000, bits: 0x1f07_ffff, nonce: pool::fill32("hdr-nonce", 0), solution: pool::fill("sol", sl, sl) });
@@ -532,10 +670,33 @@ pub fn run(args: &Args) -> i32 {
                 }
             }
         }
+        {
+            let pos: Vec<usize> = (0..=hb.len()).collect();
+            let mut rcases = reader_cases(&hb, &pos, true);
+            for t in 0..hb.len() {
+                rcases.push((format!("trunc[{t}]"), Some(hb[..t].to_vec()), real::Answers::Chunk(1)));
+            }
+            sweep_reader(&run, true, &format!("hdrbase[sol{sl}]"), 0, &hb, rcases, &rc);
+        }
         sweep(&run, "hdr", "hdr-bytes", &format!("hdrbase[sol{sl}]"), 0, &hb, m);
     }
     phase("headers", &run);
     run.section("phase_seconds", json!(phases));
+    {
+        use std::sync::atomic::Ordering::Relaxed;
+        run.section(
+            "reader_answer_deviation_levels",
+            json!({
+                "0 deviations (every call served in full)": "every other case of this run (slice parses)",
+                "1 deviation: one short read (split at position i)": rc.split.load(Relaxed),
+                "1 deviation: one ErrorKind::Interrupted at position i": rc.interrupt.load(Relaxed),
+                "every call short, at most 1 byte": rc.chunk[0].load(Relaxed),
+                "every call short, at most 2 bytes": rc.chunk[1].load(Relaxed),
+                "every call short, at most 3 bytes": rc.chunk[2].load(Relaxed),
+                "every call short, at most 7 bytes": rc.chunk[3].load(Relaxed),
+            }),
+        );
+    }
 
     // ---- direct CompactSize / Optional lattice ---------------------------------------------------
     for n in header::compact_values() {
